@@ -906,6 +906,11 @@ Section Renumber.
       rewrite E'. exact IH.
   Qed.
 
+  Lemma zget_rename_id {V} (d : list (Z * V)) k : zget (map (fun e => (s (fst e), snd e)) d) (s k) = zget d k.
+  Proof.
+    pose proof (zget_rename (fun v : V => v) d k) as H. cbn beta in H. rewrite H. destruct (zget d k); reflexivity.
+  Qed.
+
   Lemma zget_rename_inv {V W} (f : V -> W) (d : list (Z * V)) u w :
     zget (map (fun e => (s (fst e), f (snd e))) d) u = Some w -> exists k, u = s k.
   Proof.
@@ -1090,18 +1095,21 @@ Section Renumber.
 
   (* the concrete identifier and bond-order functions are equivariant *)
   Lemma atom_identifiers_rename g :
-    atom_identifiers (rename_mol s g) = map (fun e => (s (fst e), (fun v : Z => v) (snd e))) (atom_identifiers g).
-  Proof. unfold atom_identifiers, rename_mol. cbn [m_atoms]. rewrite !map_map. reflexivity. Qed.
+    atom_identifiers (rename_mol s g) = map (fun e => (s (fst e), snd e)) (atom_identifiers g).
+  Proof.
+    unfold atom_identifiers, rename_mol. cbn [m_atoms]. rewrite !map_map.
+    apply map_ext. intros [n a]. cbn [fst snd]. reflexivity.
+  Qed.
 
   Lemma ident_rename g x : ident (atom_identifiers (rename_mol s g)) (s x) = ident (atom_identifiers g) x.
   Proof.
-    unfold ident. rewrite atom_identifiers_rename, zget_rename. destruct (zget (atom_identifiers g) x); reflexivity.
+    unfold ident. rewrite atom_identifiers_rename, zget_rename_id. reflexivity.
   Qed.
 
   Lemma bond_order_rename g x y : bond_order (rename_mol s g) (s x) (s y) = bond_order g x y.
   Proof.
     unfold bond_order, bond_of. rewrite nbrs_rename.
-    rewrite (zget_rename (fun b : bond => b)). destruct (zget (nbrs g x) y); reflexivity.
+    rewrite zget_rename_id. reflexivity.
   Qed.
 End Renumber.
 
